@@ -344,7 +344,7 @@ ADDED = {
     'C01': 'a line-granular single-preemption tier (thread A suspended at '
            'every line event of yaql code inside its parse on a warm '
            'engine, and at first-executed lines of the first parse on a '
-           'brand-new engine, while B parses).',
+           'brand-new engine, while B parses). word operators glued to a parenthesis in the text pools.',
     'C02': 'the stock tables are pinned in the check; engines created '
            'part-way through an insertion sequence and used directly, via '
            'copy() and with per-call options are judged against engines of '
@@ -357,63 +357,63 @@ ADDED = {
     'C05': 'family members are also declared through real Python '
            'signatures with specs decorators, or as one callable typed per '
            'registration through parameter_type_func; union types in the '
-           'lattice; aliases and lazy keyword-only parameters.',
+           'lattice; aliases and lazy keyword-only parameters. a host type with a value-dependent validator (one type object).',
     'C06': 'the same three ways of declaring members as C05; keyword-passed '
-           'arguments, zero-argument ties, partial orders, union types.',
+           'arguments, zero-argument ties, partial orders, union types. a host type with a value-dependent validator, new type objects per enumeration order.',
     'C07': 'the canary nested in lists and maps at every position; '
            'histories in which an auto-yaqlizing object hands out instances '
            'of slotted, plain and library classes before a never-yaqlized '
-           'instance of the same class is probed.',
+           'instance of the same class is probed. member names that end with / start with / contain a listed name.',
     'C08': 'integers as data (pow, shifts, repeated squaring, products, '
            'supplied values) under the quota; containers in hashable '
-           'positions; literal templates.',
+           'positions; literal templates. frozen dictionaries measured by their table; remembered collections read a second time; dictionaries consumed by another function; pull counts of the per-step accumulators over a counting source.',
     'C09': 'a fourth mode with tuples holding mutable containers, input '
            'conversion on and output conversion off (results must not '
            'alias host data); residue in the supplied context; '
-           'context-less evaluations; hand-built libraries.',
+           'context-less evaluations; hand-built libraries. per-evaluation contexts of the host (a variable read by helpers, overridden variable reads) and every statement in every ordered pair of them through one parsed object.',
     'C10': 'one options dictionary reused for several engines; contexts '
            'composed (LinkedContext, MultiContext) from a standard and a '
            'hand-made finalizer-less context after the latter was used '
-           'alone; copy()/per-call option families.',
+           'alone; copy()/per-call option families. sparse option dictionaries; base engines with explicit options overridden by copy() / per-call options.',
     'C11': 'operands that fail when evaluated (trace up to the failure, '
            'exception class, nothing afterwards); method calls on yaqlized '
            'objects; generate/generateMany with decycle; ordering key '
-           'selectors at most once per element.',
+           'selectors at most once per element. seedless accumulate laziness; mergeWith merger order.',
     'C12': 'the sweep repeated in contexts created under the Python and the '
            'camelCase naming convention in one process in both creation '
            'orders with keyword names computed by a model; lazily '
            'evaluated parameters given values through positional / keyword '
            '/ call() args / call() kwargs; calls that must be refused '
            '(mandatory parameter skipped, unknown keyword) before the valid '
-           'spellings on the same context.',
+           'spellings on the same context. one parameter given a value at the edge of its type as literal / variable / keyword / call() argument.',
     'C13': 'collections with nulls; element types other than small integers '
            '(strings, floats, 20-digit integers, frozen dictionaries) for '
            'the 76 entries whose model is parametric in the elements '
            '(parametricity tested on the model); collection arguments as '
            'one-shot iterators; deeply nested dictionaries; which results '
-           'are lists and which are lazy.',
+           'are lists and which are lazy. host records (tuples of python lists through input conversion) as elements; mergeWith over lists with repeated items.',
     'C14': 'distinct(keySelector), accumulate with a seed, list '
            'concatenation, selectMany over lazy and endless inners, zip '
            'passed as an argument, data supplied as one-shot iterators and '
-           'unsized re-iterables; every case under a 60 s watchdog.',
+           'unsized re-iterables; every case under a 60 s watchdog. delete() with positions before the start; any() without a predicate.',
     'C15': 'literal spellings of unary operators; combining sequences and '
            'normalisation / case-folding look-alikes in the string corpus.',
     'C16': 'words lexed by engines with more / fewer operator words in one '
-           'process; identifier letters that are not in NFKC form.',
+           'process; identifier letters that are not in NFKC form. the option engine has an iterator limit of 2.',
     'C17': 'a LinkedContext whose own layer is empty; own-layer reads '
-           '(ask_parent=False) with defaults.',
+           '(ask_parent=False) with defaults. directed histories: multi-context members with different parents defining the same names, every member order, varied allocation.',
     'C18': 'a cold-start tier (fresh library context - also one assembled '
            'by hand without finalizer - and freshly parsed statement per '
            'run, thread A suspended at line granularity at the first '
            'execution of every line per shared object while B evaluates); '
            'nested-overlap schedules (A a points, B b points, A to its end, '
-           'B); three deeply nested statements.',
+           'B); three deeply nested statements. deep statements well inside and far outside the recursion limit, baselines in a thread of their own under the same hooks.',
     'C19': 'lazily evaluated selector forms, hex, replacement dictionaries '
            'whose keys have one string form.',
     'C20': 'the process time zone is set to UTC+5:30 for the whole check; '
            'timespan arithmetic, format/parse, replace and now laws; a host '
            'zone with a varying offset for the (d + t) - t / (d + t) - d '
-           'laws.',
+           'laws. .utc of instants whose UTC reading is outside the representable range.',
 }
 
 
